@@ -203,6 +203,18 @@ func newOperation(expr parser.ItemType, vectorBinOp bool) (operation, error) {
 	return nil, parse.UnsupportedOperationErr(expr)
 }
 
+// shouldDropMetricName returns whether the metric name should be dropped
+// from the result of the operation, following the rules of Prometheus:
+// arithmetic operators drop it, comparison operators keep it unless the
+// bool modifier is used, and atan2 keeps it.
+func shouldDropMetricName(op parser.ItemType, returnBool bool) bool {
+	switch op {
+	case parser.ADD, parser.SUB, parser.DIV, parser.MUL, parser.POW, parser.MOD:
+		return true
+	}
+	return returnBool
+}
+
 // btof returns 1 if b is true, 0 otherwise.
 func btof(b bool) float64 {
 	if b {
